@@ -79,6 +79,8 @@ class UpgradedAnnotation(metaclass=abc.ABCMeta):
         return _PreEvaluatedAnnotation(value)
 
     def __eq__(self, other):
+        if self is other:
+            return True
         if isinstance(other, UpgradedAnnotation):
             return self.source_value() == other.source_value()
         return False
